@@ -2,7 +2,7 @@
    Only statements here; proofs are in Keys.v, SketchProofs.v, BloomProofs.v, TinyLFUProofs.v,
    PolicyProofs.v, CacheNoPanic.v, CacheInv.v. *)
 From StrettoModel Require Import Base Metrics Sketch SketchProofs Bloom BloomProofs TinyLFU TinyLFUProofs Policy PolicyProofs
-  Ttl Store Cache Keys CacheProofs CacheInv CacheNoPanic PolicyLive.
+  Ttl Store Cache Keys CacheProofs CacheInv CacheNoPanic PolicyLive CacheNoDeadlock.
 Open Scope N_scope.
 
 (* The builder rejects exactly zero num_counters, zero max_cost, zero buffer size, with that error
@@ -107,3 +107,21 @@ Theorem C20_admission_decision_terminates :
     match pol_add est oracle s k cost with AddDone _ _ _ _ _ => True | AddPanic => True | _ => False end.
 Proof. exact pol_add_returns. Qed.
 Print Assumptions C20_admission_decision_terminates.
+
+(* Operations complete: the three calls of the API that can wait for the processor — wait(), clear()
+   and remove() — are never part of a deadlock.  In every reachable state (any history, schedule,
+   flavour, accepted configuration), whenever such a call cannot return yet, the call itself or the
+   processor can make a step: the processor takes the head item, takes the clear request, or goes on
+   with what it is doing.  With weak fairness of the processor's select! the call returns.  (The
+   hypothesis on the admission-time table excludes only the pruning of more than NUM_TO_KEEP tracked
+   keys, which the model does not cover.) *)
+Theorem C20_blocked_call_has_a_moving_processor :
+  forall c mc t now st a,
+  tl_wf t -> 0 < c_buf_cap c ->
+  reach_u64 c (cinit c mc t now) st ->
+  N.of_nat (length (s_start st)) <= Consts.NUM_TO_KEEP ->
+  blocked_call (client_of st a) ->
+  (exists st' o, cstep c st (LClient a) = StepOk st' o) \/
+  (exists h st' o, cstep c st (LProc h) = StepOk st' o).
+Proof. exact blocked_call_has_a_moving_processor. Qed.
+Print Assumptions C20_blocked_call_has_a_moving_processor.
